@@ -176,7 +176,6 @@ func explore(args []string) {
 	}
 }
 
-
 func selftestMain() int {
 	p, err := loadProgram()
 	if err != nil {
